@@ -5,6 +5,7 @@ import (
 	"go/constant"
 	"go/token"
 	"go/types"
+	"sort"
 	"strings"
 
 	"golang.org/x/tools/go/ssa"
@@ -23,6 +24,7 @@ func init() {
 			"R4: what is printed under measurement-only and what SignDoc signs derive from one GoldenMeasurement call result. " +
 			"R5: the dry_run / measurement_only flags are bound to the DryRun / MeasurementOnly fields of the very Context installed with endorse.NewContext. " +
 			"R8: the endorse command's methods in package cmd and the functions of that package they reach make no direct file-system mutation (os.WriteFile, Create, OpenFile for writing, Mkdir*, Remove*, Rename …). " +
+			"R9: in the measurement-only branch (the true side of the Context.MeasurementOnly test) every return is reached only through every technology guard of that branch (the tests of the golden measurement's SevSnp / Tdx sections): no path reports one technology and returns before the other is looked at. " +
 			"R7: the printers of measurement-only mode look the per-count measurement map up only under the count the request names (or range over the map itself), never under a fixed table of counts. " +
 			"R6: the mode flags do not shape what is measured and signed: no decision in GoldenMeasurement's call closure derives from DryRun/MeasurementOnly, and no store to a Context field that closure reads is conditional on a mode flag. " +
 			"Not covered: equality of reported values as bytes; side effects inside VersionControl implementations' ReleasePath/Result (pure by interface contract).",
@@ -50,6 +52,7 @@ func boolFieldFlag(v ssa.Value, pkg, typ string, names ...string) (int, bool) {
 }
 
 func runC15(c *Ctx) {
+	c15EveryTechnologyReported(c)
 	endorsePkg := repoPath("endorse")
 	keysPkg := repoPath("keys")
 	stypPkg := repoPath("sign/types")
@@ -607,4 +610,131 @@ func takesGolden(f *ssa.Function) bool {
 		}
 	}
 	return false
+}
+
+// c15EveryTechnologyReported is R9: a measurement-only run reports what a real run would sign — for every technology
+// in the document. In the function that branches on Context.MeasurementOnly, the blocks dominated by the true edge form
+// the reporting region; the technology guards are the tests `<golden>.X != nil` in it (X a pointer-typed section of the
+// golden measurement message). Every return in the region must have every guard on all its paths from the region's
+// entry (a reachability test with the guard block removed).
+func c15EveryTechnologyReported(c *Ctx) {
+	endorsePkg := repoPath("endorse")
+	epbPkg := repoPath("proto/endorsement")
+	n := 0
+	type regionT struct {
+		f       *ssa.Function
+		blocks  map[*ssa.BasicBlock]bool
+		entries []*ssa.BasicBlock
+	}
+	var regions []regionT
+	seenFn := map[*ssa.Function]bool{}
+	for _, f := range c.P.RepoFunctions() {
+		if load.RelPkg(f) != "endorse" || c.isTestFunc(f) || f.Blocks == nil {
+			continue
+		}
+		blocks := map[*ssa.BasicBlock]bool{}
+		for _, b := range f.Blocks {
+			for _, cf := range dominatingConds(b) {
+				if _, ok := boolFieldFlag(cf.Cond, endorsePkg, "Context", "MeasurementOnly"); ok && cf.Val {
+					blocks[b] = true
+				}
+			}
+		}
+		if len(blocks) == 0 {
+			continue
+		}
+		r := regionT{f: f, blocks: blocks}
+		for b := range blocks {
+			if id := b.Idom(); id == nil || !blocks[id] {
+				r.entries = append(r.entries, b)
+			}
+		}
+		regions = append(regions, r)
+		// a same-package helper the branch hands the document to is part of the reporting code
+		for b := range blocks {
+			for _, in := range b.Instrs {
+				call, ok := in.(ssa.CallInstruction)
+				if !ok {
+					continue
+				}
+				g := call.Common().StaticCallee()
+				if g == nil || g.Blocks == nil || load.RelPkg(g) != "endorse" || seenFn[g] {
+					continue
+				}
+				takes := false
+				for _, p := range g.Params {
+					if namedIs(p.Type(), epbPkg, "VMGoldenMeasurement") {
+						takes = true
+					}
+				}
+				if !takes {
+					continue
+				}
+				seenFn[g] = true
+				gr := regionT{f: g, blocks: map[*ssa.BasicBlock]bool{}, entries: []*ssa.BasicBlock{g.Blocks[0]}}
+				for _, gb := range g.Blocks {
+					gr.blocks[gb] = true
+				}
+				regions = append(regions, gr)
+			}
+		}
+	}
+	sort.Slice(regions, func(i, j int) bool { return regions[i].f.Pos() < regions[j].f.Pos() })
+	for _, r := range regions {
+		f, region := r.f, r.blocks
+		type guard struct {
+			b    *ssa.BasicBlock
+			name string
+		}
+		var guards []guard
+		for b := range region {
+			gi, ok := b.Instrs[len(b.Instrs)-1].(*ssa.If)
+			if !ok {
+				continue
+			}
+			bo, ok := gi.Cond.(*ssa.BinOp)
+			if !ok || (bo.Op != token.NEQ && bo.Op != token.EQL) || !isNilK(bo.Y) {
+				continue
+			}
+			ld, ok := bo.X.(*ssa.UnOp)
+			if !ok || ld.Op != token.MUL {
+				continue
+			}
+			fa, ok := ld.X.(*ssa.FieldAddr)
+			if !ok || !namedIs(fa.X.Type(), epbPkg, "VMGoldenMeasurement") {
+				continue
+			}
+			guards = append(guards, guard{b, flow.FieldName(fa)})
+		}
+		sort.Slice(guards, func(i, j int) bool { return guards[i].b.Index < guards[j].b.Index })
+		for _, g := range guards {
+			n++
+			// returns of the region reachable from its entry without passing g
+			seen := map[*ssa.BasicBlock]bool{g.b: true}
+			var skipped []string
+			var walk func(b *ssa.BasicBlock)
+			walk = func(b *ssa.BasicBlock) {
+				if seen[b] || !region[b] {
+					return
+				}
+				seen[b] = true
+				if ret, ok := b.Instrs[len(b.Instrs)-1].(*ssa.Return); ok {
+					if len(ret.Results) == 0 || isNilK(ret.Results[len(ret.Results)-1]) {
+						skipped = append(skipped, c.pos(lastPos(b)))
+					}
+					return
+				}
+				for _, s := range b.Succs {
+					walk(s)
+				}
+			}
+			for _, e := range r.entries {
+				walk(e)
+			}
+			sort.Strings(skipped)
+			c.S.Check(len(skipped) == 0, "R9", load.FuncName(f)+":measurement-only reaches the "+g.name+" section", c.pos(lastPos(g.b)), "every successful return of the measurement-only code lies behind the test of this section",
+				"the measurement-only code can return successfully (at "+strings.Join(skipped, ", ")+") without having looked at the "+g.name+" section of the document: its measurements are signed by a real run and not reported by a measurement-only run")
+		}
+	}
+	c.S.Floor("R9", "technology guards in the measurement-only code", 2, n)
 }
